@@ -12,6 +12,11 @@
 //   nl  : '\n'
 //   p   : any other single non-blank character
 //   blanks (space, tab, CR) are dropped outside strings.
+//   `#line ..` marker lines inside the body (the preprocessor puts them around included text) are
+//   dropped together with their line end: where tokens are believed to be is C14's subject.
+// With "root" (a directory holding <file> and the files it includes, written by the orchestrator) the
+// directory is mapped to the virtual root like the CLI does and <file> is preprocessed under its path
+// there, so that `#include "x.hpp"` resolves relative to the including file.
 #include "common.h"
 
 #include <algorithm>
@@ -37,6 +42,12 @@ static J lex_text(const std::string& t)
     while (i < n)
     {
         char c = t[i];
+        if ((i == 0 || t[i - 1] == '\n') && t.compare(i, 6, "#line ") == 0)
+        {
+            while (i < n && t[i] != '\n') { i++; }
+            if (i < n) { i++; }
+            continue;
+        }
         if (c == '\n') { arr.push(lexeme("nl", "")); i++; }
         else if (c == ' ' || c == '\t' || c == '\r') { i++; }
         else if (c == '"')
@@ -65,6 +76,11 @@ static void cmd_pp(const J& c)
     auto& rt = *v.rt;
     std::string text = c.str("text");
     std::string file = c.str("file", "case.sqf");
+    if (c.has("root"))
+    {
+        rt.fileio().add_mapping(c.str("root"), "/");
+        file = c.str("root") + "/" + file;
+    }
     sqf::runtime::fileio::pathinfo pi{ file, {} };
     auto res = rt.parser_preprocessor().preprocess(rt, text, pi);
     J o = ev("Obs");
